@@ -44,7 +44,8 @@ TargetsSorted == {[t EXCEPT ![N] = Mk(XM(t[N]), ZM(t[N]), s)] : t \in {u \in [1.
 Valid == ValidStabilizer(N, target)
 ReqSupported == <<N, reqconn>> \in Supported
 
-Init == /\ phase = "request" /\ kind \in {"prep", "readout"} /\ reqconn \in ReqConns /\ target \in Targets
+(* the two APIs share everything up to Cancel, so the API (kind) is chosen there: "any" until then *)
+Init == /\ phase = "request" /\ kind = "any" /\ reqconn \in ReqConns /\ target \in Targets
         /\ cid = -1 /\ entry = <<>> /\ layer = <<>> /\ circ = <<>>
 CheckSupport == /\ phase = "request" /\ phase' = (IF ReqSupported /\ reqconn = Conn THEN "classify" ELSE "raised")
                 /\ UNCHANGED <<kind, reqconn, target, cid, entry, layer, circ>>
@@ -56,7 +57,7 @@ Classify == /\ phase = "classify"
 Lookup == /\ phase = "lookup"
           /\ entry' = <<TableOf(N, Conn)[cid + 1], TableGatesOf(N, Conn)[cid + 1]>> /\ phase' = "layer"
           /\ UNCHANGED <<kind, reqconn, target, cid, layer, circ>>
-SoundLayers == {L \in [Q -> 0..5] : SoundL(L, target, entry[1][1])}
+SoundLayers == LET GG == Span(GraphGens(N, entry[1][1])) IN {L \in [Q -> 0..5] : SoundLG(L, target, GG)}
 FindLayer == /\ phase = "layer"
              /\ LET SL == SoundLayers IN
                   IF SL = {} THEN layer' = layer /\ phase' = "raised"
@@ -64,8 +65,10 @@ FindLayer == /\ phase = "layer"
              /\ UNCHANGED <<kind, reqconn, target, cid, entry, circ>>
 Compose == /\ phase = "compose" /\ circ' = entry[2] \o InvLayerGates(layer, 0) /\ phase' = "cancel"
            /\ UNCHANGED <<kind, reqconn, target, cid, entry, layer>>
-Cancel == /\ phase = "cancel" /\ circ' = CancelHH(circ) /\ phase' = (IF kind = "readout" THEN "invert" ELSE "synth")
-          /\ UNCHANGED <<kind, reqconn, target, cid, entry, layer>>
+Cancel == /\ phase = "cancel" /\ circ' = CancelHH(circ)
+          /\ \/ kind' = "readout" /\ phase' = "invert"
+             \/ kind' = "prep" /\ phase' = "synth"
+          /\ UNCHANGED <<reqconn, target, cid, entry, layer>>
 Invert == /\ phase = "invert" /\ circ' = Inverse(circ) /\ phase' = "done"
           /\ UNCHANGED <<kind, reqconn, target, cid, entry, layer>>
 Synth == /\ phase = "synth" /\ phase' = (IF Valid THEN "fix" ELSE "raised")
@@ -92,7 +95,7 @@ NoSilentWrong == phase = "done" =>
 NoSpuriousRaise == phase = "raised" => ~ReqSupported \/ ~Valid
 (* spec -> code: the outcomes the design admits for each supported request (one line per terminal state; the harness checks that what the real code *)
 (* does for the same request is one of them)                                                                                                          *)
-DumpOutcome == (phase \in {"done", "raised"} /\ reqconn = Conn) => PrintT(ToJson([k |-> kind, t |-> target, o |-> phase]))
+DumpOutcome == (phase \in {"done", "raised"} /\ reqconn = Conn) => PrintT(ToJson([k |-> kind, t |-> target, o |-> phase]))    \* k = "any": raised before the APIs diverge
 (* vacuity guards, evaluated by the harness from the counts TLC prints: some invalid request reaches the layer search, some reaches Synth *)
 ReachedSynthInvalid == ~(phase = "synth" /\ ~Valid)
 ReachedDoneReadoutInvalid == ~(phase = "done" /\ kind = "readout" /\ ~Valid)
